@@ -142,6 +142,9 @@ theorem readFieldBegin_ok {e bs t id r} (h : readFieldBegin e bs = .ok ((t, id),
 theorem readFieldBegin_len {e bs x r} (h : readFieldBegin e bs = .ok (x, r)) : 1 + r.length ≤ bs.length := by
   obtain ⟨t, id⟩ := x
   rcases readFieldBegin_ok h with ⟨_, h1, rfl⟩ | ⟨_, h1, rfl⟩ <;> simp <;> omega
+theorem readFieldBegin_exact {e bs t id r} (h : readFieldBegin e bs = .ok ((t, id), r)) :
+    (t = .stop → 1 + r.length = bs.length) ∧ (t ≠ .stop → 3 + r.length = bs.length) := by
+  rcases readFieldBegin_ok h with ⟨h0, h1, rfl⟩ | ⟨h0, h1, rfl⟩ <;> simp [h0] <;> omega
 theorem readFieldBegin_ext {e p x r} (q : Bytes) (h : readFieldBegin e p = .ok (x, r)) :
     readFieldBegin e (p ++ q) = .ok (x, r ++ q) := by
   unfold readFieldBegin at h ⊢
@@ -310,6 +313,7 @@ grind_pattern readFieldBegin_ext => readFieldBegin e (p ++ q), readFieldBegin e 
 grind_pattern readListBegin_ext => readListBegin e (p ++ q), readListBegin e p, Out.ok (x, r)
 grind_pattern readMapBegin_ext => readMapBegin e (p ++ q), readMapBegin e p, Out.ok (x, r)
 
+attribute [grind →] readFieldBegin_exact
 attribute [grind →] takeN_len readU_len readI_len readByte_len readTType_len readBytes_len readFieldBegin_len
   readListBegin_len readMapBegin_len
 
